@@ -6,6 +6,8 @@ the bounded stand-in: it replays call sequences on real circuits and compares ev
 equal circuit; it is also how a failed frame obligation is turned into a concrete failing history."""
 import random
 
+import numpy as np
+
 from pyvc import frameflow
 
 F = "cirq-core/cirq/circuits/circuit.py"
@@ -501,7 +503,136 @@ def _appended(base, o, st):
     return c
 
 
-STANDINS = [standin_history, standin_moment_caches, standin_placement_small]
+def standin_structural_ops(tier, seed):
+    """whole-circuit operations against an independent model of the moment structure: inversion, zipping, qubit remapping (also twice,
+    also through sub-circuit operations that already carry a qubit map), concatenation, repetition, ragged concatenation, slicing, freezing"""
+    import cirq
+    from contracts import refsim
+
+    rng = random.Random(seed + 41)
+    cases, fails = 0, []
+    pool = [cirq.LineQubit(i) for i in range(4)] + [cirq.NamedQubit("n"), cirq.GridQubit(0, 1)]
+
+    def bad(what, **kw):
+        if sum(1 for f in fails if f["failed"] == what) < 2:
+            fails.append(dict(args={k: repr(v) for k, v in kw.items()}, failed=what, clause=what))
+
+    def rand_circuit(qs, with_subcircuit=True):
+        moments = []
+        for _ in range(rng.randrange(1, 5)):
+            free, mops = rng.sample(qs, len(qs)), []
+            while free:
+                r = rng.random()
+                if r < 0.3 and len(free) >= 2:
+                    mops.append(rng.choice([cirq.CNOT, cirq.CZ ** 0.5, cirq.ISWAP ** 0.5])(free.pop(), free.pop()))
+                elif r < 0.4 and len(free) >= 2 and with_subcircuit:
+                    x, y = free.pop(), free.pop()
+                    sub = cirq.CircuitOperation(cirq.FrozenCircuit(cirq.H(x), cirq.CNOT(x, y), cirq.T(y)))
+                    if rng.random() < 0.6:
+                        sub = sub.with_qubit_mapping({x: y, y: x})  # the operation already carries a qubit map
+                    mops.append(sub)
+                elif r < 0.8:
+                    mops.append(rng.choice([cirq.H, cirq.T, cirq.X ** 0.5, cirq.Y ** 0.25, cirq.S])(free.pop()))
+                else:
+                    free.pop()
+            moments.append(cirq.Moment(mops))
+        return cirq.Circuit(moments)
+
+    def U(c, order):
+        return refsim.ref_unitary(cirq.Circuit(cirq.decompose(c, keep=lambda o: not isinstance(o.untagged, cirq.CircuitOperation))), order)
+
+    for it in range(60 if tier == "quick" else 800):
+        qs = rng.sample(pool, rng.choice([2, 3, 3, 4]))
+        c = rand_circuit(qs)
+        order = list(qs)
+        u = U(c, order)
+        # inversion: moments reversed, every operation inverted
+        cases += 1
+        inv = cirq.inverse(c)
+        if len(inv) != len(c) or any(sorted(map(repr, inv[i].qubits)) != sorted(map(repr, c[len(c) - 1 - i].qubits)) for i in range(len(c))):
+            bad("inverse(circuit) does not keep the moment structure reversed", circuit=c)
+        elif not np.allclose(U(inv, order), u.conj().T, atol=1e-7) or not np.allclose(U(c ** -1, order), u.conj().T, atol=1e-7):
+            bad("inverse(circuit) is not the adjoint", circuit=c)
+        # qubit remapping: a permutation, applied once and twice (the second one undoing or composing with the first)
+        cases += 1
+        perm = dict(zip(qs, rng.sample(qs, len(qs))))
+        extra = [x for x in pool if x not in qs]
+        if extra and rng.random() < 0.5:
+            perm[qs[0]], perm_inv_fix = extra[0], None  # onto a new qubit (no longer a permutation of qs: rebuild as injective map)
+            used = set()
+            for k_ in qs:
+                if perm[k_] in used:
+                    perm[k_] = next(x for x in qs + extra if x not in used and x not in perm.values())
+                used.add(perm[k_])
+        try:
+            t1 = c.transform_qubits(perm)
+            back_ = {v: k_ for k_, v in perm.items()}
+            t1.transform_qubits(back_)
+        except Exception as ex:
+            bad(f"transform_qubits with an injective qubit map raised {type(ex).__name__}", circuit=c, qubit_map=perm, error=str(ex)[:160])
+            continue
+        want_q = {perm[x] for x in c.all_qubits()}
+        if set(t1.all_qubits()) != want_q:
+            bad("transform_qubits: the remapped circuit acts on the wrong set of qubits", circuit=c, qubit_map=perm, got=sorted(map(repr, t1.all_qubits())))
+        elif not np.allclose(U(t1, [perm[x] for x in order]), u, atol=1e-7):
+            bad("transform_qubits: the remapped circuit is not the original with its qubits renamed", circuit=c, qubit_map=perm)
+        else:
+            back = {v: k_ for k_, v in perm.items()}
+            t2 = t1.transform_qubits(back)
+            if set(t2.all_qubits()) != set(c.all_qubits()) or not np.allclose(U(t2, order), u, atol=1e-7):
+                bad("transform_qubits twice (a map, then its inverse) does not give back the original circuit's action", circuit=c, qubit_map=perm)
+            elif t2 != c:
+                bad("transform_qubits twice (a map, then its inverse) is not equal to the original circuit", circuit=c, qubit_map=perm)
+            second = dict(zip(list(perm.values()), rng.sample(list(perm.values()), len(perm))))
+            t3 = t1.transform_qubits(second)
+            comp = {k_: second[v] for k_, v in perm.items()}
+            if not np.allclose(U(t3, [comp[x] for x in order]), u, atol=1e-7) or t3 != c.transform_qubits(comp):
+                bad("transform_qubits twice differs from remapping once with the composition", circuit=c, first=perm, second=second)
+        # zip: moment i of the result is the union of the operands' moments i; overlapping qubits are refused
+        cases += 1
+        others = [x for x in pool if x not in qs][:2]
+        if others:
+            d = rand_circuit(others, with_subcircuit=False)
+            z = cirq.Circuit.zip(c, d)
+            L = max(len(c), len(d))
+            ok = len(z) == L and all(set(z[i].operations) == set((c[i].operations if i < len(c) else ()) + (d[i].operations if i < len(d) else ())) for i in range(L))
+            if not ok:
+                bad("Circuit.zip: moment i is not the union of the operands' moments i", a=c, b=d)
+        try:
+            cirq.Circuit.zip(c, c)
+            if len(c.all_qubits()) and any(len(m) for m in c):
+                bad("Circuit.zip accepted two circuits with overlapping qubits in the same moment", a=c)
+        except ValueError:
+            pass
+        # concatenation, repetition, slicing, freezing
+        cases += 1
+        d = rand_circuit(qs)
+        if list((c + d).moments) != list(c.moments) + list(d.moments):
+            bad("c + d is not the concatenation of the moments", a=c, b=d)
+        if list((c * 3).moments) != list(c.moments) * 3:
+            bad("c * 3 is not the moments repeated", a=c)
+        i, j = sorted((rng.randrange(0, len(c) + 1), rng.randrange(0, len(c) + 1)))
+        if list(c[i:j].moments) != list(c.moments)[i:j]:
+            bad("c[i:j] is not the slice of the moments", a=c, i=i, j=j)
+        fz = c.freeze()
+        if fz.unfreeze() != c or list(fz.moments) != list(c.moments) or hash(fz) != hash(cirq.FrozenCircuit(c.moments)) or fz != cirq.FrozenCircuit(c.moments):
+            bad("freeze / unfreeze changes the circuit (or equal frozen circuits hash differently)", a=c)
+        # ragged concatenation: same action, nothing lost, each qubit's operations in order
+        cases += 1
+        cr = cirq.Circuit.concat_ragged(c, d)
+        if sorted(map(repr, cr.all_operations())) != sorted(map(repr, list(c.all_operations()) + list(d.all_operations()))):
+            bad("concat_ragged lost or duplicated operations", a=c, b=d)
+        elif not np.allclose(U(cr, order), U(d, order) @ u, atol=1e-7):
+            bad("concat_ragged changed the action of c followed by d", a=c, b=d)
+        if len(fails) >= 6:
+            break
+    return dict(function=F + ":Circuit[inverse, zip, transform_qubits, +, *, slices, freeze, concat_ragged]", case="structural-ops",
+                bound="seeded circuits of 1-4 moments on 2-4 qubits (line / named / grid) with sub-circuit operations that already carry qubit maps; permutations and maps onto new qubits, applied once, undone, and composed",
+                cases=cases, distinct=cases, failures=len(fails), exhaustive=False, _fails=fails[:4])
+standin_structural_ops.prop = "C05"
+
+
+STANDINS = [standin_history, standin_moment_caches, standin_placement_small, standin_structural_ops]
 
 
 def _replay_frame(ob, seed):
